@@ -10,7 +10,7 @@
 """
 import sys, os, json, subprocess, shutil, re, argparse, time
 V = os.path.dirname(os.path.dirname(os.path.abspath(__file__)))
-WT = '/tmp/seedwt'
+WT = os.environ.get('SEEDWT', '/tmp/seedwt')
 
 def sh(cmd, cwd=None, timeout=3600):
     p = subprocess.run(cmd, shell=isinstance(cmd, str), cwd=cwd, stdout=subprocess.PIPE, stderr=subprocess.STDOUT, timeout=timeout)
